@@ -320,3 +320,28 @@ Proof.
   - simpl. constructor; [intros [H|[]]; discriminate|]. constructor; [intros []|constructor].
   - vm_compute. intros [H|[H|[]]]; discriminate.
 Qed.
+
+(* ------------------------------------------------------------------ the oracle vs the theorems *)
+(* the executable clauses hold of the model's output for every shuffle *)
+Theorem model_eli_holds_b p cs best new : eli_holds_b p best new (elitism p cs best new) = true.
+Proof.
+  destruct (elitism_contract_g worse p cs best new) as (I & L & ND & _). fold (elitism p cs best new) in *.
+  unfold eli_holds_b. rewrite (subset_b_of_incl _ _ I). unfold implb.
+  destruct (nodup_uid new) eqn:Nn; cbn [negb orb andb].
+  - apply nodup_uid_iff in Nn. rewrite (L Nn), Nat.eqb_refl. cbn [andb].
+    destruct (nodup_uid best) eqn:Nb; cbn [negb orb andb]; [|reflexivity].
+    apply nodup_uid_iff in Nb. apply nodup_uid_iff, ND; assumption.
+  - rewrite andb_false_r. reflexivity.
+Qed.
+
+(* the head clause of the oracle holds of the model's output under the guard, and the guard is
+   exactly what the driver uses to recognise the known input class *)
+Theorem model_eli_head_b p cs best new :
+  e_type p = KeepNBest \/ ahead_of_head worse best new < length new ->
+  eli_head_b p best new (elitism p cs best new) = true.
+Proof.
+  intros G. destruct (elitism_contract_g worse p cs best new) as (_ & _ & _ & H). fold (elitism p cs best new) in *.
+  unfold eli_head_b. destruct best as [|h best]; [reflexivity|]. unfold implb.
+  destruct (applies p) eqn:Ap; [|reflexivity]. destruct (1 <=? length new) eqn:L1; [|reflexivity].
+  apply Nat.leb_le in L1. cbn [andb negb orb]. apply mem_uid_iff, in_map. apply H; auto.
+Qed.
